@@ -25,13 +25,11 @@ pub mod tracking {
         #[verifier::external_body] pub fn new(p: &path::PathBuf) -> (r: Result<Table, MonorailError>) { unimplemented!() }
         // ASSUMED (repo function): decodes the run pointer file; `recorded_id` is what that file holds
         #[verifier::external_body] pub fn open_run(&self, Tracked(w): Tracked<&mut World>) -> (r: Result<Run, MonorailError>)
-            ensures *final(w) == *old(w), r matches Ok(run) ==> run.id as int == old(w).recorded_id { unimplemented!() }
+            ensures final(w).pointer_reads == old(w).pointer_reads + 1, final(w).recorded_id == old(w).recorded_id, final(w).fs == old(w).fs, final(w).shown == old(w).shown,
+                r matches Ok(run) ==> run.id as int == old(w).recorded_id { unimplemented!() }
     }
 }
 pub mod run { pub struct RunOutput { pub x: u8 } }
-// serde_json::from_reader over the zstd decoder: the value the decoded bytes denote
-#[verifier::external_body] pub fn from_reader_dec<T, S>(d: &mut zstd::stream::read::Decoder<S>) -> (r: Result<T, serde_json::Error>)
-    ensures r matches Ok(v) ==> json_parse::<T>(old(d).decoded) == Some(v) { unimplemented!() }
 //!const src/app/result.rs RESULT_OUTPUT_FILE_NAME
 pub const RESULT_OUTPUT_FILE_NAME: &⟦'static ⟧str = "result.json.zst";
 //!end
@@ -89,7 +87,7 @@ pub open spec fn allowed(targets: Set<Seq<char>>, commands: Set<Seq<char>>, targ
 #[verifier::external_body] pub(crate) fn get_header(filename: &str, target: &str, command: &str, color: bool) -> String { unimplemented!() }
 // contract of stream_archive_file_to_stdout as far as log_show depends on it (what it prints is proved in unit log): one archive streamed
 #[verifier::external_body] fn stream_archive_file_to_stdout(header: &[u8], path: &path::Path, stdout: &mut iox::Stdout, Tracked(w): Tracked<&mut World>) -> (r: Result<(), MonorailError>)
-    ensures final(w).shown == old(w).shown.push(path@), final(w).recorded_id == old(w).recorded_id, final(w).fs == old(w).fs { unimplemented!() }
+    ensures final(w).shown == old(w).shown.push(path@), final(w).recorded_id == old(w).recorded_id, final(w).fs == old(w).fs, final(w).pointer_reads == old(w).pointer_reads { unimplemented!() }
 
 // hex digest of a target path -> that path, for the first n configured targets (a later target wins a collision)
 pub open spec fn h2t(ts: Seq<Target>, n: int) -> Map<Seq<char>, Seq<char>> decreases n {
@@ -131,6 +129,9 @@ pub(crate) fn log_show<'a>(
 @        // C12: the run shown is the one asked for with --id, else the one the run pointer names (the most recently completed run);
 @        // C08 / C20: of that run, exactly the archives whose target and command pass the filters and whose stream is selected are
 @        // printed, each once, in directory order (what is printed per archive: unit log, stream_archive_file_to_stdout)
+@        // C12: an explicit --id addresses its slot on its own: the run pointer is not consulted (whether slot N can be shown does not
+@        // depend on where the pointer stands - every retained run stays addressable after the ring has wrapped)
+@        input.id is Some ==> final(w).pointer_reads == old(w).pointer_reads, // [C12]
 @        res is Ok ==> final(w).shown == old(w).shown + cmds_upto(shown_run(*cfg, work_path@, *input, old(w).recorded_id),
 @            dir_listing(shown_run(*cfg, work_path@, *input, old(w).recorded_id)).len() as int, cfg.targets@, input.filter_input), // [C12,C08,C20]
 {
@@ -182,10 +183,11 @@ pub(crate) fn log_show<'a>(
     let mut stdout = iox::stdout();
     // open directory at run_dir
 @    let ghost s0 = w.shown;
+@    let ghost pr0 = w.pointer_reads;
     for fn_entry in ⟦itc: ⟧run_dir.read_dir()?.results_vec()
 @        invariant
 @            itc.seq().len() == dir_listing(rd).len(), forall|q: int| 0 <= q < itc.seq().len() ==> ((#[trigger] itc.seq()[q]) matches Ok(e) ==> e.p == dir_listing(rd)[q]),
-@            w.shown == s0 + cmds_upto(rd, itc.index@ as int, ts, f),
+@            w.shown == s0 + cmds_upto(rd, itc.index@ as int, ts, f), input.id is Some ==> w.pointer_reads == old(w).pointer_reads,
 @            hash2target@.dom() =~= m.dom(), forall|h: Seq<char>| hash2target@.dom().contains(h) ==> (#[trigger] hash2target@[h])@ == m[h],
 @            forall|n: Seq<char>| utf8_name(n), ts == cfg.targets@, f == input.filter_input, m == h2t(ts, ts.len() as int),
     {
@@ -199,7 +201,7 @@ pub(crate) fn log_show<'a>(
             for t_entry in ⟦itd: ⟧fn_path.read_dir()?.results_vec()
 @                invariant
 @                    itd.seq().len() == dir_listing(cd).len(), forall|q: int| 0 <= q < itd.seq().len() ==> ((#[trigger] itd.seq()[q]) matches Ok(e) ==> e.p == dir_listing(cd)[q]),
-@                    w.shown == sc + tdirs_upto(cd, itd.index@ as int, ts, f), command@ == name_of(cd),
+@                    w.shown == sc + tdirs_upto(cd, itd.index@ as int, ts, f), command@ == name_of(cd), input.id is Some ==> w.pointer_reads == old(w).pointer_reads,
 @                    hash2target@.dom() =~= m.dom(), forall|h: Seq<char>| hash2target@.dom().contains(h) ==> (#[trigger] hash2target@[h])@ == m[h],
 @                    forall|n: Seq<char>| utf8_name(n), ts == cfg.targets@, f == input.filter_input, m == h2t(ts, ts.len() as int),
             {
@@ -213,7 +215,7 @@ pub(crate) fn log_show<'a>(
                     for e in ⟦ite: ⟧t_path.read_dir()?.results_vec()
 @                        invariant
 @                            ite.seq().len() == dir_listing(td).len(), forall|q: int| 0 <= q < ite.seq().len() ==> ((#[trigger] ite.seq()[q]) matches Ok(x) ==> x.p == dir_listing(td)[q]),
-@                            w.shown == st + files_upto(td, ite.index@ as int, command@, target_hash@, ts, f),
+@                            w.shown == st + files_upto(td, ite.index@ as int, command@, target_hash@, ts, f), input.id is Some ==> w.pointer_reads == old(w).pointer_reads,
 @                            hash2target@.dom() =~= m.dom(), forall|h: Seq<char>| hash2target@.dom().contains(h) ==> (#[trigger] hash2target@[h])@ == m[h],
 @                            forall|n: Seq<char>| utf8_name(n), ts == cfg.targets@, f == input.filter_input, m == h2t(ts, ts.len() as int),
                     {
